@@ -9,6 +9,7 @@ CONSTANTS
   RegisterFirst = TRUE
 INVARIANTS
   TypeOK
+  MutexOK
   OwnResult
   NoPanic
   NoLostWakeup
